@@ -578,3 +578,7 @@ impl ActorProperties {
     #[verus_verify(external_body)]
     pub fn send_stop(&self, reason: Option<String>) -> Result<(), MessagingErr<StopMessage>> { unimplemented!() }
 }
+
+/// `std::any::type_name::<T>()`: a printed path -- NOT injective (two distinct types may print the same)
+#[verus_verify(external_body)]
+pub fn type_name_of<T>() -> &'static str { unimplemented!() }
